@@ -2,7 +2,10 @@ module dsim
 
 go 1.26.2
 
-require github.com/dolthub/dolt/go v0.0.0
+require (
+	github.com/dolthub/dolt/go v0.0.0
+	github.com/dolthub/fslock v0.0.5
+)
 
 require (
 	cel.dev/expr v0.25.1 // indirect
@@ -37,7 +40,6 @@ require (
 	github.com/cenkalti/backoff/v4 v4.1.3 // indirect
 	github.com/cespare/xxhash/v2 v2.3.0 // indirect
 	github.com/cncf/xds/go v0.0.0-20260202195803-dba9d589def2 // indirect
-	github.com/dolthub/fslock v0.0.5 // indirect
 	github.com/dolthub/gozstd v0.0.0-20240423170813-23a2903bca63 // indirect
 	github.com/dustin/go-humanize v1.0.1 // indirect
 	github.com/edsrzf/mmap-go v1.2.0 // indirect
